@@ -19,6 +19,7 @@ import KafkaVerif.Lemmas.WriterCloseProgress
 import KafkaVerif.Lemmas.WriterCloseMeasure
 import KafkaVerif.Lemmas.GroupCloseProgress
 import KafkaVerif.Lemmas.FetcherDeadlines
+import KafkaVerif.Lemmas.GroupDeadlines
 
 namespace KV.C09
 open KV.WriterClose
@@ -923,5 +924,39 @@ example : (FetcherLife.run {} [.top 0, .init true, .iter, .read .outOfRange, .ct
       fun s2 => (stepSilent ⟨true, true⟩ s2 .cancel).map (·.pc)) = some .exited := by decide
 example : (FetcherLife.run {} [.top 0, .init true, .iter, .read .outOfRange, .ctxCancel]).bind
     (fun s => stepSilent ⟨false, true⟩ s (.offsets false)) = none := by decide
+
+end KV.C09
+
+/-! ## Coordinator requests and their deadlines (Model/GroupDeadlines.lean; round 6) -/
+namespace KV.C09
+
+/-- **group_run_progress_silent_coordinator** — `group_run_progress` against a coordinator that accepts connections and
+reads requests but never answers (`stepSilentG`: an answer is impossible, a request fails locally only through its
+deadline): with a deadline on every coordinator request the `run` goroutine of a closed group — or, inside
+`gen.close()`, a function of the generation it waits for — still has an enabled step in every reachable state until
+`run` has exited; where it waits for the coordinator, the step is the request's failure. -/
+theorem group_run_progress_silent_coordinator (c : Group.Cfg) (s : Group.St) (hr : Group.Reachable c s)
+    (hc : s.closedCG = true) (hx : s.pc ≠ .exited) :
+    ∃ e, (e.runLoop = true ∨ (∃ g acc, e = .gStart g acc) ∨ GroupClose.genEvS e = true) ∧
+      (Group.stepSilentG true c s e).isSome = true :=
+  GroupClose.run_progress_full_silent c s hr hc hx
+
+/-- **group_run_progress_for_source** — the same with the deadline fact extracted from consumergroup.go (every request
+method of `timeoutCoordinator` arms `conn.SetDeadline` before it delegates): dropping one of them breaks this theorem. -/
+theorem group_run_progress_for_source (c : Group.Cfg) (s : Group.St) (hr : Group.Reachable c s)
+    (hc : s.closedCG = true) (hx : s.pc ≠ .exited) :
+    ∃ e, (e.runLoop = true ∨ (∃ g acc, e = .gStart g acc) ∨ GroupClose.genEvS e = true) ∧
+      (Group.stepSilentG Gen.CloseFacts.coordinatorCallsHaveDeadline c s e).isSome = true := by
+  have h : Gen.CloseFacts.coordinatorCallsHaveDeadline = true := by decide
+  rw [h]
+  exact GroupClose.run_progress_full_silent c s hr hc hx
+
+/-- **group_run_blocked_without_deadline** — the converse: waiting for the answer of FindCoordinator, JoinGroup,
+SyncGroup or LeaveGroup without a deadline, against a silent coordinator `run` has no step left; `ConsumerGroup.Close`
+(and `Reader.Close` behind it) waits for ever. -/
+theorem group_run_blocked_without_deadline (c : Group.Cfg) (s : Group.St)
+    (hp : (∃ lv, s.pc = .coord 1 lv) ∨ s.pc = .joining ∨ s.pc = .syncing ∨ ∃ a, s.pc = .leaveCall a)
+    (e : Group.Ev) (he : e.runLoop = true) : Group.stepSilentG false c s e = none :=
+  GroupClose.run_blocked_without_deadline c s hp e he
 
 end KV.C09
